@@ -6,7 +6,7 @@
    states around it, not over the structure of HandleWith. *)
 EXTENDS StorageHTTP
 
-CONSTANTS Shares, Size, MaxOps, USecrets, Enablers, AuthMode, Eps
+CONSTANTS Shares, Size, MaxOps, USecrets, Enablers, AuthMode, HdrMode, Eps
 
 SI == "i0"
 SM == "m0"
@@ -40,7 +40,8 @@ Init ==
 (* ------------------------- the space of requests ------------------------- *)
 AuthClasses == IF AuthMode = "all"
                  THEN {<<>>, <<"wrong">>, <<"malformed">>, <<"nonutf8">>, <<"correct">>, <<"correct", "wrong">>, <<"wrong", "correct">>, <<"correct", "nonutf8">>}
-                 ELSE {<<>>, <<"wrong">>, <<"correct">>}
+                 ELSE IF AuthMode = "few" THEN {<<>>, <<"wrong">>, <<"correct">>}
+                 ELSE {<<"correct">>}
 U1 == CHOOSE v \in USecrets : TRUE
 W1 == CHOOSE v \in Enablers : TRUE
 \* header classes of one kind: missing, malformed, each value, duplicates (the later one wins), value + malformed
@@ -82,7 +83,7 @@ DoRequest ==
   /\ nops < MaxOps
   /\ \E ep \in Eps, au \in AuthClasses :
        \E sh \in ShOf(ep) :
-       \E h \in HdrSets(ep, au = <<"correct">>), a \in Args(ep) :
+       \E h \in HdrSets(ep, au = <<"correct">> /\ HdrMode = "full"), a \in Args(ep) :
          LET r == [ep |-> ep, auth |-> au, hdrs |-> h, si |-> IF IsMut(ep) THEN SM ELSE SI, sh |-> sh, a |-> a]
              choices == IF ep = "alloc" /\ Stage(H, r) = "business" /\ a.body = "ok"
                           THEN {al \in SUBSET AllocCandidates(H.S, r.si, a.shnums) : AllocChoiceOK(H, r, al)} ELSE {{}}
